@@ -568,7 +568,7 @@ pub fn run(tier: Tier, seed: u64, replay: Option<&std::path::Path>) -> i32 {
     }
     let (n_pure, n_hist) = match tier {
         Tier::Quick => (240_000, 1_600),
-        Tier::Thorough => (2_000_000, 6_000),
+        Tier::Thorough => (4_000_000, 12_000),
     };
     let mut out = run_sharded("C12-pure", seed, n_pure, 2000, pure_strategy, check_pure);
     if out.failure.is_none() && out.infra.is_none() {
@@ -600,9 +600,9 @@ pub fn run(tier: Tier, seed: u64, replay: Option<&std::path::Path>) -> i32 {
     }
     let mut fuzz_extra = json!({"libfuzzer": "not run in the quick tier"});
     if tier == Tier::Thorough && out.failure.is_none() && out.infra.is_none() {
-        match fuzz_campaign(seed, 120, 4) {
+        match fuzz_campaign(seed, 240, 4) {
             Ok((execs, jobs)) => {
-                fuzz_extra = json!({"libfuzzer_target": "wire", "jobs": jobs, "seconds_per_job": 120, "executions": execs, "crashes": 0});
+                fuzz_extra = json!({"libfuzzer_target": "wire", "jobs": jobs, "seconds_per_job": 240, "executions": execs, "crashes": 0});
                 out.stats.evaluations += execs;
                 *out.stats.labels.entry("libfuzzer-executions".into()).or_insert(0) += execs;
             }
